@@ -123,7 +123,7 @@ func collectNames(steps []M) (topics, denoms, tokens, dids []string) {
 		}
 		return sortedKeys(set[k])
 	}
-	return get("t", []string{"t1", "t2"}), get("n", []string{"n1", "n2"}), get("i", []string{"i1", "i2"}), get("d", []string{"d1", "d2"})
+	return get("t", []string{"t1", "t2"}), get("n", []string{"n1", "n2"}), get("i", []string{"i1", "i2"}), get("d", []string{"d1", "d2", "dp"})
 }
 
 // RunBehaviour executes one behaviour on a fresh chain.
